@@ -63,6 +63,26 @@ NEEDS = {
  "C15-m4": ("positions() folds with (v + 0.5) as i64 (truncation toward zero) instead of Transform2::periodic", "site coordinates shifted by a NEGATIVE whole lattice vector (library / JSON states)"),
  "C20-m3": ("with a convergence threshold, a slow loop skips the step-size adaptation (`continue`)", "a threshold, a slow loop with every proposal rejected, and at least one more loop"),
  "C20-m4": ("the loop count computed once in build() in floating point: steps as f64 / inner_steps as f64", "inner_steps = 0 with steps > 0: the quotient is +inf, cast to u64::MAX loops - the optimiser never returns"),
+ "C02-m5": ("overlap_area uses atan(half_chord / d) instead of the clamped acos(d / r)", "a chord beyond a circle's centre or one circle inside the other: trimers with distance^2 + radius^2 < 1"),
+ "C02-m6": ("shape.area() * total_shapes cached in a #[serde(skip)] OnceLock", "a state that is scored, then has its public shape field replaced, then scored again"),
+ "C04-m5": ("Cell2.family marked #[serde(skip)] with Default = Monoclinic", "an orthorhombic state written to JSON, read back and optimised further (the angle becomes a degree of freedom)"),
+ "C04-m6": ("positions() dedups images that coincide in POSITION (orientation ignored)", "a site coordinate exactly on a bound or 0: mirror / two-fold images coincide and one is dropped"),
+ "C05-m5": ("reset_value routed through the clamping helper", "a parameter that starts outside its limits (state from a file) and a rejected move on it: the state jumps while the optimiser keeps the old score"),
+ "C05-m6": ("temperature in closed form kt_start * kt_ratio.powf(loop)", "kt_start = 0 with a heating factor and enough loops for the power to overflow: 0 * inf = NaN, every move accepted"),
+ "C07-m5": ("acceptance test moved to the log domain: ln(threshold) < (new - old)/kt", "kT exactly 0 and an exactly equal score: 0/0 = NaN compares false (the original maps it to probability 1)"),
+ "C07-m6": ("score_current only updated when the score improved", "kT > 0 and a history with an accepted worse move"),
+ "C13-m5": ("LJShape2::energy returns 0 beyond the largest cutoff of the molecule, folded over filter_map(cutoff)", "a molecule mixing cut and uncut particles (library / file states)"),
+ "C13-m6": ("thread-local memo of the cutoff shift keyed on (sigma, cutoff) only", "two species with the same sigma and cutoff but different epsilon evaluated consecutively on one thread"),
+ "C14-m5": ("periodic images rebuilt as Transform2::new(rotation(), image_pos)", "placements with a reflection: images come out as pure rotations"),
+ "C14-m6": ("to_cartesian computes cos as sqrt(1 - sin^2)", "obtuse cell angles (cells from a file)"),
+ "C16-m5": ("from_operations rewritten as one pass: the last component's constant is never stored", "table entries with a y translation: p1g1 becomes p1m1, p2gg becomes p2mg"),
+ "C16-m6": ("order-4 groups completed from two generators by multiplying string-parsed matrices (zero [2,2] entry)", "p2mg and p2gg: the product loses the left factor's translation"),
+ "C17-m5": ("digit arm matches is_numeric(), value taken with to_digit(10).expect()", "non-ASCII numerals: a panic instead of Err"),
+ "C17-m6": ("numerator/denominator scratch variables hoisted out of the per-component loop, denominator not reset", "a fraction in the first component followed by an integer constant in the second"),
+ "C18-m5": ("cooling only applied when the loop accepted at least one move", "a fully rejected loop followed by loops still warm enough to measure"),
+ "C18-m6": ("clamp moved from the factor to the temperature: if kt < 0 { kt = 0 }", "kt_ratio above one: the temperature alternates between +0.0 and -0.0, and -0.0 accepts every downhill move"),
+ "C19-m5": ("min(step_ratio, 1) replaced by 'skip growth when already at the maximum'", "a fully rejected loop followed by a loop with acceptances: the ratio exceeds 1 and stays there"),
+ "C19-m6": ("step tracked directly with an absolute floor max(min(step, max_step_size), 1e-4)", "max_step_size below 1e-4 (including 0)"),
 }
 rows = []
 for d in sorted(glob.glob(os.path.join(ROOT, "seeded", "*"))):
